@@ -70,7 +70,11 @@ CHECKS["C19"] = dict(
          "program, by induction); decide obligations on the generated save program (self.dumps is called, strictly before the first "
          "destination-touching effect, nothing untranslatable) and on the dumps program (no file effect of its own); success writes "
          "exactly the serialised bytes. Correspondence: fault injection at every serialisation step x five formats on the real "
-         "Config.save with a pre-existing destination (bytes, inode, mtime, log of opens for writing) vs the interpreter.",
+         "Config.save with a pre-existing destination (bytes, inode, mtime, log of opens for writing) vs the interpreter; successful "
+         "saves (key files given or created during the save, text with blank lines, lossy encoders) must load back equal. Continuation "
+         "(Props/C19b.lean): a generated obligation on Config.load / loads (reads what it is given, cannot write) and the join of "
+         "save_ok_bytes with C02's document round trip through the file's bytes: a file written by a successful save loads back into a "
+         "configuration holding the same values.",
     note="Translator (harness/extract.py, ast-based, straight-line subset; unknown syntax becomes an `unknown` effect that breaks the "
          "obligation) and the hand-written effect semantics are trusted. A crash inside file.write is outside the property and the model.",
     technique="Lean 4 proof over a model regenerated from the source on every run (translator) + fault-injection correspondence",
@@ -155,7 +159,12 @@ CHECKS["C14"] = dict(
          "named/True prefixes restart), with the documented examples kernel-evaluated; the variable wins at construction, an invalid one "
          "fails construction with a ValidationError naming the field, loads skip the key while it is set, unset/empty/unbound = no "
          "binding (exact characterisation). Correspondence: the whole settings matrix on real schemas (names) and env states x kinds "
-         "(precedence) against the model.",
+         "(precedence) against the model; construction routes (dotted item assignment, chained attributes), validators of the "
+         "application's own, digest defaults and re-declared keys by direct oracles. Continuation (Props/C14b.lean): over every history "
+         "of assignments, loads and resets on a configuration level the values, statuses and tape position are those of an abstract "
+         "map computed from the schema and the world alone (refinement by induction over histories); hence a value taken from a set "
+         "variable survives any number of loads, the last accepted assignment wins over variable and loads, a reset returns to the "
+         "variable's value, and bindings not in force are unobservable.",
     note=CFG_NOTE + " Schemas are built top-down as the property states. Known finding F10: typed list/dict fields ignore their variable "
          "at construction while loads skip them (proved about the model: env_ignored_by_lists); the challenge-with-default case was repaired.",
     technique="Lean 4 proof (closed-form naming by induction over the schema chain; case analysis of __setdefault__/load_tree) + model/implementation correspondence",
